@@ -52,7 +52,7 @@ def run(ctx: Ctx):
                 if not (isinstance(node.value, ast.Constant) and node.value.value is False):
                     ctx.fail("no-forbid-extra-keys", f"{rel}:keyword", f"{node.arg}= appears in {rel}", rel,
                              getattr(node.value, "lineno", None))
-    ctx.floor("converter / structure-fn construction sites", n_calls, 2)
+    ctx.floor("converter / structure-fn construction sites", n_calls, 1)
     # the **attributes passed to make_dict_structure_fn must only hold override(...) objects keyed by field
     # names: checked as dataflow shape in C02/C10 (factory wiring)
     # (c) syntactic sweep of hook bodies for whole-mapping operations the tree evaluator does not see
